@@ -47,6 +47,8 @@ func (n *node[T]) buildIndexes() {
 
 	if n.indexes == nil {
 		n.indexes = make(map[byte]int, indexesSize)
+	} else {
+		clear(n.indexes) // 子节点可能被删除或是重新排序，旧的索引不能保留。
 	}
 
 	for index, node := range n.children {
